@@ -86,12 +86,23 @@ def regen():
     else:
         write_if_changed(os.path.join(GEN, 'Funcs.lean'), p.stdout.replace('namespace LLRP.Gen\n', 'set_option linter.unusedVariables false\nnamespace LLRP.Gen\n', 1))
     # yaml2lean
-    p = subprocess.run([sys.executable, os.path.join(VERIF, 'translators', 'yaml2lean.py'), os.path.join(REPO, 'pkg/llrp/messages.yaml'), 'LLRP.Gen'],
+    os.makedirs(os.path.join(BUILD, 'gen', 'llrp'), exist_ok=True)
+    p = subprocess.run([sys.executable, os.path.join(VERIF, 'translators', 'yaml2lean.py'), os.path.join(REPO, 'pkg/llrp/messages.yaml'), 'LLRP.Gen',
+                        '--json', os.path.join(BUILD, 'schema.json'), '--goreg', os.path.join(BUILD, 'gen', 'llrp', 'zz_verif_types_test.go')],
                        stdout=subprocess.PIPE, stderr=subprocess.PIPE, text=True)
     if p.returncode != 0:
         failures.append(('yaml2lean', p.stderr.strip()))
     else:
         write_if_changed(os.path.join(GEN, 'Schema.lean'), p.stdout)
+    # pinned layout table (C02): its Lean form always comes from /verif/pinned/messages.yaml
+    pin = os.path.join(VERIF, 'pinned', 'messages.yaml')
+    p = subprocess.run([sys.executable, os.path.join(VERIF, 'translators', 'yaml2lean.py'), pin, 'LLRP.Pinned'],
+                       stdout=subprocess.PIPE, stderr=subprocess.PIPE, text=True)
+    if p.returncode != 0:
+        failures.append(('yaml2lean(pinned)', p.stderr.strip()))
+    else:
+        os.makedirs(os.path.join(LEAN, 'LLRP', 'Pinned'), exist_ok=True)
+        write_if_changed(os.path.join(LEAN, 'LLRP', 'Pinned', 'Schema.lean'), p.stdout.replace(pin, 'pinned/messages.yaml'))
     return failures
 
 
@@ -184,6 +195,11 @@ def build_harness(pkg, race=False):
     for f in sorted(os.listdir(hdir)):
         if f.endswith('.go'):
             repl[os.path.join(REPO, PKGDIR[pkg], f)] = os.path.join(hdir, f)
+    gdir = os.path.join(BUILD, 'gen', pkg)      # files generated from the source on this run (e.g. the type registry)
+    if os.path.isdir(gdir):
+        for f in sorted(os.listdir(gdir)):
+            if f.endswith('.go'):
+                repl[os.path.join(REPO, PKGDIR[pkg], f)] = os.path.join(gdir, f)
     ov = os.path.join(BUILD, 'overlay_%s.json' % pkg)
     with open(ov, 'w') as f:
         json.dump({'Replace': repl}, f)
@@ -275,6 +291,13 @@ def write_replay(pid, tier, seed, kind, key, **kw):
     return path
 
 
+def key_match(pattern, key):
+    """exact match; a '*' component in the ':'-separated pattern matches any component (used where the same defect
+    shows through every enclosing type)"""
+    a, b = pattern.split(':'), key.split(':')
+    return len(a) == len(b) and all(x == '*' or x == y for x, y in zip(a, b))
+
+
 class Result:
     """accumulates what a check run established"""
 
@@ -302,7 +325,7 @@ class Result:
     def violation(self, key, what, kind, found_input, **replay):
         """register a violation unless it is a listed known finding"""
         for kf in load_known():
-            if kf.get('property') == self.pid and kf.get('status') == 'known' and kf.get('key') == key:
+            if kf.get('property') == self.pid and kf.get('status') == 'known' and key_match(kf.get('key', ''), key):
                 if (key, kf.get('what', what)) not in self.known_hits:
                     self.known_hits.append((key, kf.get('what', what)))
                 return
